@@ -24,7 +24,7 @@ import (
 )
 
 func TestMain(m *testing.M) {
-	vstat.Rule("(a) rate limiter: interleaved histories of 2-6 sources (capacity >= #sources, incl. exactly equal) under a frozen clock; oracle = non-interference by projection: each source's decision/delay sequence equals the one it gets alone on a fresh limiter along the same time-line. (b) capacity pressure: more sources than capacity, requests >= 1s apart, slow rates; oracle = lock-step reference (an eviction model 'forget exactly the tracked source nearest to expiry' under both readings of expiry, re-armed on use or fixed at creation, combined with one real single-source limiter per source incarnation); decisions must agree with one reading throughout. (c) connection limiter: generated start/finish schedules of several sources (amounts 1-3) through a gate handler; per-source projection on a fresh limiter must give the same decisions. (d) component: TTLMap Set/Get/Len/advance against a reference map (when full exactly one minimum-expiry entry disappears, nothing else). Non-trivial: >= 3 sources with >= 1 rejection each, or an insertion at full capacity. (e) TestC14_BelowCapacity: tables of 512-4096 entries filled to just below capacity with random names or names sharing a 127-204 byte prefix; every source spends its whole burst once: no first request refused, nobody admitted again a second later.")
+	vstat.Rule("(a) rate limiter: interleaved histories of 2-6 sources (capacity >= #sources, incl. exactly equal) under a frozen clock; oracle = non-interference by projection: each source's decision/delay sequence equals the one it gets alone on a fresh limiter along the same time-line. (b) capacity pressure: more sources than capacity, requests >= 1s apart, slow rates; oracle = lock-step reference (an eviction model 'forget exactly the tracked source nearest to expiry' under both readings of expiry, re-armed on use or fixed at creation, combined with one real single-source limiter per source incarnation); decisions must agree with one reading throughout. (c) connection limiter: generated start/finish schedules of several sources (amounts 1-3) through a gate handler; per-source projection on a fresh limiter must give the same decisions. (d) component: TTLMap Set/Get/Len/advance against a reference map (when full exactly one minimum-expiry entry disappears, nothing else). Non-trivial: >= 3 sources with >= 1 rejection each, or an insertion at full capacity. (e) TestC14_BelowCapacity: tables of 512-4096 entries filled to just below capacity with random names or names sharing a 127-204 byte prefix; every source spends its whole burst once: no first request refused, nobody admitted again a second later. TestC14_ForgottenThenNew: 1-3 generations of up to capacity (1-5) sources, first request of each = whole burst (or part), optional follow-ups, all away for 10 periods + 1 s + up to 3 periods; bursts 1,2,4,12,20,50 x average; every first request of a generation must be admitted.")
 	vstat.Main(m.Run)
 }
 
@@ -236,6 +236,9 @@ func TestC14_RateCapacityPressure(t *testing.T) {
 		period := rapid.SampledFrom([]time.Duration{10 * time.Second, time.Minute, time.Hour}).Draw(t, "period")
 		avg := int64(rapid.IntRange(1, 4).Draw(t, "avg"))
 		burst := int64(rapid.IntRange(1, 4).Draw(t, "burst"))
+		if rapid.IntRange(0, 3).Draw(t, "bigBurst") == 0 { // a burst that does not refill within the time an idle source is remembered
+			burst = avg * int64(rapid.SampledFrom([]int{12, 20, 50}).Draw(t, "burstFactor"))
+		}
 		capacity0 := 0
 		_ = capacity0
 		rates := []gen.Rate{{Period: period, Average: avg, Burst: burst}}
@@ -571,5 +574,60 @@ func TestC14_BelowCapacity(t *testing.T) {
 			}
 		}
 		vstat.Case(fmt.Sprintf("below|%d|%d|%d|%s%s", capacity, n, burst, prefix, salt), true, []string{"table-filled-to-capacity"}, map[string]any{"capacity": capacity, "sources": n, "name0": name(0)})
+	})
+}
+
+// TestC14_ForgottenThenNew: sources spend (part of) their burst and then stay away until the
+// limiter has forgotten them; after that, returning and brand-new sources arrive at a table that
+// is full of expired entries. Each of them "starts afresh": its first request may be as large as
+// the whole burst, whatever the sources whose places it takes had spent. Bursts range from 1 to
+// 50 x average (a large burst does not refill within the time an idle source is remembered, so
+// a bucket handed on from another source would show).
+func TestC14_ForgottenThenNew(t *testing.T) {
+	rapid.Check(t, func(t *rapid.T) {
+		period := rapid.SampledFrom([]time.Duration{time.Second, 2 * time.Second, 10 * time.Second}).Draw(t, "period")
+		avg := int64(rapid.IntRange(1, 3).Draw(t, "avg"))
+		burst := avg * int64(rapid.SampledFrom([]int{1, 2, 4, 12, 20, 50}).Draw(t, "burstFactor"))
+		rates := []gen.Rate{{Period: period, Average: avg, Burst: burst}}
+		rs, _ := gen.RateSet(rates)
+		capacity := rapid.IntRange(1, 5).Draw(t, "capacity")
+		clock.Freeze(epoch.Add(time.Duration(rapid.Int64Range(0, int64(time.Second)-1).Draw(t, "phase"))))
+		defer clock.Unfreeze()
+		tl, sv := newLimiter(t, rs, capacity)
+		var log []string
+		rounds := rapid.IntRange(1, 3).Draw(t, "rounds")
+		next := 0
+		for r := 0; r < rounds; r++ {
+			// a generation of sources fills the table (not beyond its capacity) and spends
+			k := rapid.IntRange(1, capacity).Draw(t, "sources")
+			var gen0 []int
+			for i := 0; i < k; i++ {
+				gen0 = append(gen0, next)
+				next++
+			}
+			if r > 0 && rapid.Bool().Draw(t, "oneReturns") {
+				gen0[0] = rapid.IntRange(0, next-k-1).Draw(t, "returning") // a source of an earlier generation comes back
+			}
+			for _, s := range gen0 {
+				first := burst
+				if rapid.IntRange(0, 3).Draw(t, "partOfBurst") == 0 {
+					first = rapid.Int64Range(1, burst).Draw(t, "firstAmount")
+				}
+				got := ask(t, tl, sv, "s"+strconv.Itoa(s), first)
+				log = append(log, fmt.Sprintf("s%d x%d -> %s", s, first, got))
+				if !strings.HasPrefix(got, "200/") {
+					t.Fatalf("rate %v, capacity %d: source s%d is new to the limiter (every earlier source has been away for longer than it is remembered); its first request of %d units (burst %d) got %s\nhistory: %s", rates[0], capacity, s, first, burst, got, strings.Join(log, "; "))
+				}
+				for j := rapid.IntRange(0, 3).Draw(t, "more"); j > 0; j-- {
+					clock.Advance(time.Duration(rapid.Int64Range(0, int64(rates[0].Tau())).Draw(t, "gap")))
+					ask(t, tl, sv, "s"+strconv.Itoa(s), 1)
+				}
+			}
+			// everybody stays away until forgotten
+			away := 10*period + time.Second + time.Duration(rapid.Int64Range(int64(time.Millisecond), int64(3*period)).Draw(t, "extraIdle"))
+			clock.Advance(away)
+			log = append(log, fmt.Sprintf("all away for %v", away))
+		}
+		vstat.Case(fmt.Sprintf("forgotten|%v|%d|%s", rates, capacity, strings.Join(log, ";")), rounds > 1, []string{"expired-entries-then-new-sources"}, map[string]any{"rate": rates[0].String(), "capacity": capacity, "history": log})
 	})
 }
